@@ -157,15 +157,17 @@ HDR = ["From Coq Require Import ZArith List Bool String Floats Uint63.",
        "Import ListNotations.", "Open Scope float_scope.", "Open Scope string_scope."]
 
 
-def evaluate(ctx, corr, cs, name):
+def evaluate(ctx, corr, cs, name, fn="mismatches", casetype="case", extra_import="", kind="crop-state", namer=None):
     """compile the shards; append mismatches to corr"""
+    namer = namer or field_name
     items = []
     for k, (files, cases) in enumerate(cs.shards):
         if not cases:
             continue
-        body = HDR + ["Definition files : list fsrc := [\n%s\n]." % ";\n".join(files),
-                      "Definition cases : list case := [\n%s\n]." % ";\n".join(t for t, _ in cases),
-                      "Definition M := Eval vm_compute in mismatches files cases.", "Print M."]
+        body = HDR[:2] + ([extra_import] if extra_import else []) + HDR[2:] + [
+                      "Definition files : list fsrc := [\n%s\n]." % ";\n".join(files),
+                      "Definition cases : list %s := [\n%s\n]." % (casetype, ";\n".join(t for t, _ in cases)),
+                      "Definition M := Eval vm_compute in %s files cases." % fn, "Print M."]
         items.append(("%s_%d" % (name, k), "\n".join(body) + "\n"))
     res = ctx.coq_eval_many(items, timeout=1500)
     shard_of = {n: k for k, (n, _) in enumerate(items)}
@@ -184,6 +186,6 @@ def evaluate(ctx, corr, cs, name):
             corr.mismatches.append({"kind": "coq-eval", "shard": nm, "output": o[-1500:]})
         for idx, poss in found:
             pos = [int(x) for x in re.findall(r"-?\d+", poss)]
-            corr.mismatches.append({"kind": "crop-state", "case": cases[int(idx)][1], "differs": [field_name(p) for p in pos]})
+            corr.mismatches.append({"kind": kind, "case": cases[int(idx)][1], "differs": [namer(p) for p in pos]})
     corr.cases += cs.total()
     return corr
